@@ -410,6 +410,13 @@ gen_c20 (gen_t *g, rng_t *r, scenario_t *sc, int tier)
 	if (roll < 18 || any < 0)
 	{
 	    if (fs < 0) { if (any >= 0) gen_unref (g, any); continue; }
+	    if (rng_chance (r, 1, 12))
+	    {
+		/* a creation the library has to refuse: nothing may be left behind */
+		int64_t a[13] = { 0, 0, 0, fs, (int64_t)rng_n (r, 40), rng_range (r, 1, 24), rng_range (r, 1, 8), 0, 0, 0, 0, 0, (int64_t)rng_n (r, 3) };
+		sc_addv (sc, MOP_BITS_REFUSED, 13, a);
+		continue;
+	    }
 	    switch (rng_n (r, 6))
 	    {
 	    case 0: gen_solid (g, fs); break;
